@@ -74,6 +74,9 @@ def build(src: str, dst: str, mutations: list[dict], readonly: bool = False) -> 
                     if m.get("signed") and m.get("turns", 0) == 0 and az > math.pi:
                         new = az - 2 * math.pi
                     con.execute("update observations set azimuth_rad = ? where id = ?", (new, oid))
+            elif op == "shift_sensor":    # the importer's ephemeris of a sensor differs from where its stored observations were taken from
+                con.execute("update truth_ephemerides set pos_x_km = pos_x_km + ?, pos_y_km = pos_y_km + ?, pos_z_km = pos_z_km + ? where agent_id = ?",
+                            (m["d"][0], m["d"][1], m["d"][2], m["agent"]))
             elif op == "drop_observations":
                 con.execute("delete from observations")
             else:
